@@ -76,5 +76,9 @@ int main(int argc, char** argv)
     T.child_timeout_s = 60;
     T.describe = describe;
     T.run = run;
+    T.signature = [](tape_t const& t, Outcome const& o) {
+        Case c = decode(t);
+        return std::string("{\"oracle\": ") + jstr(o.oracle) + ", \"policy\": " + jstr(policies[c.cfg.policy]) + "}";
+    };
     return target_main(argc, argv, T);
 }
